@@ -1,5 +1,5 @@
 import PydraModel.DriverUtil
-import PydraModel.Roundtrip.Lemmas2
+import PydraModel.Roundtrip.ArgvView
 open Lean PydraModel PydraModel.Roundtrip PydraModel.DriverUtil
 
 /-
@@ -9,7 +9,8 @@ open Lean PydraModel PydraModel.Roundtrip PydraModel.DriverUtil
  VAL = null | bool | int | "str" | {"strs":[…]} | {"reqs":[[[name, null|[…]],…],…]} | {"atom": tag}
  -> {"wf","ser_ok","unstructured":{"inputs":{name:[attr…]},"outputs":{…}},"structure":"ok"|"ValueError",
      "diffs":[[field,attr],…],"shape_same":bool,"dict_mutated":bool,"second":"ok"|"ValueError"|null,
-     "second_diffs":[…],"rules_diff":n}
+     "second_diffs":[…],"rules_diff":n, "argv": {"ok":[…]}|{"err":TAG}  (only with "values")}
+ optional: "values": {name: null | SCALAR | [SCALAR…]}, "append": [STR…]   (SCALAR as in Drivers/Argv.lean)
 {"op":"positions","fields":[{"name":…,"position":null|int},…]} -> {"positions":[…]}
 -/
 
@@ -63,6 +64,41 @@ def asgOfJson (j : Json) : Except String (List (String × Rules.Val)) := do
   let o ← j.getObj?
   o.toList.mapM (fun (k, v) => do pure (k, ← rvalOfJson v))
 
+def scalarOf (j : Json) : Except String Argv.Scalar := do
+  match j.getObjVal? "s" with
+  | .ok v => return .str (← v.getStr?).toList
+  | .error _ =>
+  match j.getObjVal? "i" with
+  | .ok v => return .int (← v.getInt?)
+  | .error _ =>
+  match j.getObjVal? "f" with
+  | .ok v => return .float (← v.getStr?).toList (← (← j.getObjVal? "z").getBool?)
+  | .error _ =>
+  match j.getObjVal? "p" with
+  | .ok v => return .path (← v.getStr?).toList
+  | .error _ =>
+  match j.getObjVal? "b" with
+  | .ok v => return .bool (← v.getBool?)
+  | .error _ => throw "bad-scalar"
+
+def argvValueOf (j : Json) : Except String Argv.Value :=
+  match j with
+  | Json.null => .ok .unset
+  | Json.arr a => do return .many (← a.toList.mapM scalarOf)
+  | _ => do return .one (← scalarOf j)
+
+def argvErrTag : Argv.Err → String
+  | .noClosingQuote => "noClosingQuote"
+  | .noEscapedChar => "noEscapedChar"
+  | .overlap => "overlap"
+  | .dupPosition => "dupPosition"
+  | .noSlot => "noSlot"
+  | .format => "format"
+
+def argvJson : Except Argv.Err (List Argv.Str) → Json
+  | .ok l => Json.mkObj [("ok", Json.arr (l.map (fun w => Json.str (String.ofList w))).toArray)]
+  | .error e => Json.mkObj [("err", Json.str (argvErrTag e))]
+
 def keysJson (l : List (String × Entry)) : Json :=
   Json.mkObj (l.map (fun (n, e) => (n, match e with
     | .raw kv => Json.arr (kv.map (fun p => Json.str p.1)).toArray
@@ -103,6 +139,16 @@ def handle (j : Json) : Json :=
         outputs := (← (← getArr j "outputs").toList.mapM fieldOfJson),
         xor := (← (← getArr j "xor").toList.mapM groupOfJson) }
       let asgs ← (← getArr j "assignments").toList.mapM asgOfJson
+      let argvOf : Option (Def → Json) ← match j.getObjVal? "values" with
+        | .ok vj => do
+          let o ← vj.getObj?
+          let l ← o.toList.mapM (fun (k, v) => do pure (k, ← argvValueOf v))
+          let app ← (← getArr j "append").toList.mapM (fun x => do pure (← x.getStr?).toList)
+          let vals : String → Argv.Value := fun n => match l.find? (fun p => p.1 == n) with
+            | some p => p.2
+            | none => .unset
+          pure (some (fun (dd : Def) => argvJson (commandArgsOf dd vals app)))
+        | .error _ => pure none
       let dct := unstructureDef d
       let base : List (String × Json) := [("wf", Json.bool (decide (DefWF d))), ("ser_ok", Json.bool (decide (SerOKDef d))),
                    ("unstructured", Json.mkObj [("inputs", keysJson dct.inputs), ("outputs", keysJson dct.outputs)])]
@@ -110,16 +156,20 @@ def handle (j : Json) : Json :=
       | .error _ =>
         return Json.mkObj (base ++ [("structure", Json.str "ValueError"), ("diffs", Json.arr #[]), ("shape_same", Json.null),
           ("dict_mutated", Json.bool false), ("second", Json.null), ("second_diffs", Json.arr #[]), ("rules_diff", Json.null)])
-      | .ok (d', dct') =>
+      | .ok d' =>
         let rulesDiff := (asgs.filter (fun l =>
           let a := Rules.assignOf l
           Rules.ruleViolations (toRules d) a != Rules.ruleViolations (toRules d') a)).length
-        let (second, secondDiffs) := match structureDict dct' with
+        -- `structure` is a pure function of the dictionary (deepcopy): the second call sees the same dictionary
+        let (second, secondDiffs) := match structureDict dct with
           | .error _ => (Json.str "ValueError", [])
-          | .ok (d'', _) => (Json.str "ok", defDiffs d d'')
+          | .ok d'' => (Json.str "ok", defDiffs d d'')
         return Json.mkObj (base ++ [("structure", Json.str "ok"), ("diffs", diffsJson (defDiffs d d')),
-          ("shape_same", Json.bool (shapeSame d d')), ("dict_mutated", Json.bool (dct' != dct)),
-          ("second", second), ("second_diffs", diffsJson secondDiffs), ("rules_diff", Json.num (JsonNumber.fromNat rulesDiff))])
+          ("shape_same", Json.bool (shapeSame d d')), ("dict_mutated", Json.bool false),
+          ("second", second), ("second_diffs", diffsJson secondDiffs), ("rules_diff", Json.num (JsonNumber.fromNat rulesDiff))]
+          ++ (match argvOf with
+              | some g => [("argv", g d), ("argv_roundtripped", g d')]
+              | none => []))
     | "positions" =>
       let fs ← (← getArr j "fields").toList.mapM (fun f => do
         let name ← getStr f "name"
